@@ -16,8 +16,17 @@ import (
 	"golang.org/x/tools/go/ssa/ssautil"
 )
 
+// repoDir is the tree under check: /repo, or a scratch copy when
+// GOSYM_REPO is set (used by tools/seedrun.sh so that seeded changes are
+// never applied to /repo itself).
+var repoDir = func() string {
+	if d := os.Getenv("GOSYM_REPO"); d != "" {
+		return d
+	}
+	return "/repo"
+}()
+
 const (
-	repoDir   = "/repo"
 	modPath   = "github.com/goatcms/goatcore"
 	ndPkgPath = modPath + "/zzverif/nd"
 )
